@@ -32,13 +32,21 @@ def rand_dataset(rng, max_rows=7, max_points=4, max_classes=4, ties=None, groupi
     uden = rng.choice([1, 2, 4])
     U = [[rng.randint(-4, 4) / uden for _ in range(len(classes))] for _ in range(n_test)]   # per point, per class
     nulls = [rng.randint(-4, 4) / uden for _ in range(n_test)]
-    grouping = grouping or rng.choice(["default", "default", "grouped", "grouped", "fork", "ndarray"])
+    for j in range(n_test):
+        if rng.random() < 0.12:      # a validation point where every class utility is exactly 0 (null usually is not)
+            U[j] = [0.0] * len(classes)
+    grouping = grouping or rng.choice(["default", "default", "grouped", "grouped", "fork", "ndarray", "permuted"])
     if grouping == "default":
         owner = list(range(n_train))
         gspec = {"kind": "default"}
+    elif grouping == "permuted":      # one row per unit, but rows not in unit order
+        ids = rng.sample([-3, 0, 1, 2, 5, 9, 14, 100, 7, 8, 21, 33, -40, 64, 1000, 12345], n_train)
+        units = sorted(ids)
+        owner = [units.index(i) for i in ids]
+        gspec = {"kind": rng.choice(["grouped", "ndarray"]), "ids": ids}
     elif grouping in ("grouped", "ndarray"):
         k = rng.randint(1, n_train)
-        ids_pool = rng.sample([-3, 0, 1, 2, 5, 9, 14, 100], k)
+        ids_pool = rng.sample([-3, 0, 1, 2, 5, 9, 14, 100, 7, 8, 21, 33, -40, 64, 1000, 12345], k)
         ids = [rng.choice(ids_pool) for _ in range(n_train)]
         units = sorted(set(ids))
         owner = [units.index(i) for i in ids]
@@ -189,7 +197,7 @@ def emit_c01(ds, alts, scores_hex, do_spec=None):
     scores = [float.fromhex(h) for h in scores_hex]
     if do_spec is None:
         do_spec = ds["n_units"] <= 7
-    return "(mkCase %s %s %s %s %s %s %s %s %s %s)" % (
+    return "(C01.mkCase %s %s %s %s %s %s %s %s %s %s)" % (
         cf.nat(ds["n_units"]), cf.zs(ds["labels"]), cf.nats(ds["owner"]),
         cf.lst([cf.qs(col) for col in ds["D"]]), cf.lst([cf.qs(col) for col in ds["U"]]), cf.qs(ds["nulls"]),
         cf.lst([cf.lst([cf.nats(o) for o in alt]) for alt in alts]), cf.qq(tol_of(ds)), cf.b(do_spec), cf.qs(scores))
